@@ -2,24 +2,24 @@
 """Generates /verif/MANIFEST.json and the 'fixed' section of known_findings.json."""
 import json, subprocess
 LEVEL = {
- "C01": ("R06,R07,R08,R28", "structural clause: invalid mutations are rejected before any store write on every path; every writer of Column.Cells re-establishes the order/uniqueness invariants"),
- "C02": ("R08,R11,R16,R29,R01,R04", "structural clause: MD5 mismatch cannot reach the storing critical section; all upload protocols funnel through the verified write; gzip/drain wiring; upload state under its mutex"),
+ "C01": ("R06,R07,R08,R28,R33,R36", "structural clause: invalid mutations are rejected before any store write on every path; every writer of Column.Cells re-establishes the order/uniqueness invariants"),
+ "C02": ("R08,R11,R16,R29,R34,R35,R01,R04", "structural clause: MD5 mismatch cannot reach the storing critical section; all upload protocols funnel through the verified write; gzip/drain wiring; upload state under its mutex"),
  "C03": ("R08,R09,R14,R26", "structural clause: inverted ranges rejected before any scan; engines honour early stop / bounds / order; rows_limit counts rows that produced output"),
  "C04": ("R11,R12,R17", "structural clause: check-then-act in one critical section on the same object; parser/validator field agreement; failure kind -> 412/304; conditions plumbing on every mutating path; 400 on unparsable"),
- "C05": ("R18,R13,R19,R26,R09,R08", "structural clause: every supported filter handled; invalid arguments rejected with InvalidArgument; branches evaluated on copies; filter errors stop the scan and are returned"),
- "C06": ("R01,R02,R04,R06,R07,R09", "structural clause: row read-modify-write under one uninterrupted write hold of table.mu on all paths; private copies in/out of the store; write-back only on success"),
+ "C05": ("R18,R13,R19,R26,R36,R09,R08", "structural clause: every supported filter handled; invalid arguments rejected with InvalidArgument; branches evaluated on copies; filter errors stop the scan and are returned"),
+ "C06": ("R01,R02,R04,R06,R07,R09,R19,R33", "structural clause: row read-modify-write under one uninterrupted write hold of table.mu on all paths; private copies in/out of the store; write-back only on success"),
  "C07": ("R11,R20,R10,R32,R01,R04,R16", "structural clause: every mutation inside the matching per-object critical section with its precondition check; lock map obligations; no in-place mutation of stored records; memstore lock discipline"),
  "C08": ("R21,R01", "structural clause: atomic metadata replace, persist-after-modify, DeleteTable removes metadata, start-up wiring, one backend write per row write"),
  "C09": ("R22,R27", "structural clause: sibling agreement of the two stores (field effects, ordering of file operations, not-found signalling) and the Walk ordering contract"),
  "C10": ("R22,R23,R24,R11", "structural clause: Metageneration=1 assigned by the store on Add, metagen+1 on patch from the value read in the same critical section, immutable fields restored after decode, read-only methods have no effects, header/body agreement"),
- "C11": ("R17,R27,R16,R14", "narrow structural clause: 400/404 discipline of list parameters, token codec agreement, Walk ordering contract, nil-safety of resolved items"),
+ "C11": ("R17,R27,R16,R14,R39", "narrow structural clause: 400/404 discipline of list parameters, token codec agreement, Walk ordering contract, nil-safety of resolved items"),
  "C12": ("R19,R06,R07,R02,R30", "structural clause: predicate on a copy; predicate_matched is the branch selector (value identity, polarity); selected list is applied; no store on failure"),
- "C13": ("R08,R07,R02,R14,R09", "structural clause (last sentence of C13): unknown family / non-8-byte increment fail before the single write; private copy; one hold"),
- "C14": ("R07,R01,R04,R05,R08,R21", "structural clause: all-or-nothing ModifyColumnFamilies (no mutation before an error return), registry/definition lock discipline, no escaping definitions, live family map, persistence"),
- "C15": ("R08,R11,R14,R16,R15,R22,R10", "structural clause: 32-source bound and missing source rejected before any write; destination critical section; rewrite path split length-checked; nil destination; Copy siblings"),
+ "C13": ("R08,R07,R02,R14,R09,R33,R37", "structural clause (last sentence of C13): unknown family / non-8-byte increment fail before the single write; private copy; one hold"),
+ "C14": ("R07,R01,R04,R05,R08,R21,R33,R38", "structural clause: all-or-nothing ModifyColumnFamilies (no mutation before an error return), registry/definition lock discipline, no escaping definitions, live family map, persistence"),
+ "C15": ("R08,R11,R14,R16,R15,R22,R10,R33", "structural clause: 32-source bound and missing source rejected before any write; destination critical section; rewrite path split length-checked; nil destination; Copy siblings"),
  "C16": ("R03,R02,R13,R01,R04,R08", "structural clause: the GC callback never writes back a stale iterator row; quiescence test guards the lock on the non-forced path; periodic lock hand-over; negative max versions never bounds a slice"),
- "C17": ("R09,R31", "sibling cross-check of the Rows implementations against the interface contract (I1-I5) plus who-constructs / Clear / iterator discipline"),
- "C18": ("R01,R04,R03,R09,R31", "structural clause: scan holds table.mu(R) at every Rows/definition access, reversal is balanced, no write-back from the scan, one iterator per range, fresh row copies"),
+ "C17": ("R09,R31,R40", "sibling cross-check of the Rows implementations against the interface contract (I1-I5) plus who-constructs / Clear / iterator discipline"),
+ "C18": ("R01,R04,R03,R09,R31,R16", "structural clause: scan holds table.mu(R) at every Rows/definition access, reversal is balanced, no write-back from the scan, one iterator per range, fresh row copies"),
  "C19": ("R20,R01,R04", "structural obligations L1-L10 of the lock map (each a necessary condition of a clause of C19)"),
  "C20": ("R13,R14,R15,R16,R01,R04,R05,R17,R25,R08", "crash/wedge vectors visible in code shape for both emulators: sign/length checks, nil contracts (interprocedural), response typestate, lock discipline, reasoned panics"),
 }
